@@ -106,3 +106,6 @@ Proof.
     constructor; [left; exact (upperhex_unreserved _ H1)|].
     constructor; [left; exact (upperhex_unreserved _ H2)|exact IH].
 Qed.
+
+Theorem uri_escape_wf_denotes s : bytes s -> uri_wf (uri_escape s) /\ uri_denotes (uri_escape s) s.
+Proof. intro H. split; [exact (uri_escape_wf s H)|exact (uri_escape_denotes s H)]. Qed.
